@@ -62,6 +62,7 @@ func (r *BatchedPrivateTokenRequest) Marshal() []byte {
 }
 
 func (r *BatchedPrivateTokenRequest) Unmarshal(data []byte) bool {
+	r.raw = nil
 	s := cryptobyte.String(data)
 
 	var tokenType uint16
